@@ -146,7 +146,8 @@ PROPS["C06"] = dict(
                  "GREAT_CIRCLE inside the sweep: bounded"],
     assumptions=[],
     trusted_base=[],
-    bounded=[("c06_proximity_soundness", {"quick": 40, "thorough": 400}), ("c06_proximity_exact_small_grids", {"quick": 60, "thorough": 900})],
+    bounded=[("c06_proximity_soundness", {"quick": 40, "thorough": 400}), ("c06_proximity_exact_small_grids", {"quick": 60, "thorough": 900}),
+             ("c06_allocation_reports_exact_value", {"quick": 15, "thorough": 60})],
     timeout=200,
 )
 PROPS["C07"] = dict(
